@@ -61,13 +61,14 @@ def uf_prover(ctx, pc, goal, timeout_ms=20000):
 
 
 def explore_and_prove(fn, assumptions, goal_of, max_paths=5000, timeout_ms=20000, max_pow=6, out=None, max_fail=3,
-                      deadline_s=None, prover=None, numpy_div=False):
+                      deadline_s=None, prover=None, numpy_div=False, str_mul_fork=None):
     """Explore fn under assumptions; on every path (as soon as it is explored) prove goal_of(path) (a z3 Bool, or
     None = nothing to prove, or a string = inconclusive reason).  Stops after max_fail failing paths (they are
     candidate counterexamples; more of them add nothing) or when deadline_s is used up (=> inconclusive)."""
     out = out or Outcome()
     ctx = Ctx(assumptions, max_paths=max_paths, timeout_ms=timeout_ms, max_pow=max_pow)
     ctx.numpy_div = numpy_div
+    ctx.str_mul_fork = str_mul_fork
     t0 = time.time()
     try:
         for p in ctx.iter_paths(fn):
